@@ -626,7 +626,15 @@ func (e *Engine) exec(st *State, f *Frame, in ssa.Instruction) (action, []*State
 			f.locals[x] = Poison{"unop " + x.Op.String()}
 		}
 	case *ssa.Convert:
-		f.locals[x] = e.convert(st, e.get(st, f, x.X), x.X.Type(), x.Type())
+		cv := e.get(st, f, x.X)
+		if u, ok := cv.(Union); ok {
+			if _, isPtr := u.alts[0].v.(Ptr); !isPtr {
+				if _, isConst := x.X.(*ssa.Const); !isConst {
+					return actAgain, e.splitOn(st, f, x.X, u)
+				}
+			}
+		}
+		f.locals[x] = e.convert(st, cv, x.X.Type(), x.Type())
 	case *ssa.ChangeType:
 		f.locals[x] = e.get(st, f, x.X)
 	case *ssa.ChangeInterface:
@@ -1296,7 +1304,11 @@ func (e *Engine) convert(st *State, a Val, from, to types.Type) Val {
 	if isString(to) {
 		if sl, ok := fu.(*types.Slice); ok {
 			if bt, ok := sl.Elem().Underlying().(*types.Basic); ok && bt.Kind() == types.Uint8 {
-				return e.copySlice(st, a.(SliceV), true)
+				sv, ok := a.(SliceV)
+				if !ok {
+					return Poison{"string(x) of " + describe(a)}
+				}
+				return e.copySlice(st, sv, true)
 			}
 			return Poison{"string([]rune)"}
 		}
@@ -1315,7 +1327,11 @@ func (e *Engine) convert(st *State, a Val, from, to types.Type) Val {
 	}
 	if sl, ok := tu.(*types.Slice); ok && isString(from) {
 		if bt, ok := sl.Elem().Underlying().(*types.Basic); ok && bt.Kind() == types.Uint8 {
-			return e.copySlice(st, a.(SliceV), false)
+			sv, ok := a.(SliceV)
+			if !ok {
+				return Poison{"[]byte(x) of " + describe(a)}
+			}
+			return e.copySlice(st, sv, false)
 		}
 		return Poison{"[]rune(string)"}
 	}
